@@ -58,6 +58,13 @@ package server
 //@ define okconn(s) = cc(s).opened && cc(s).loop != nil && cc(s).loop.poller != nil && cc(s).outFragQueue != nil
 //@ define local(r) = r.Type <= codec.UNKNOWN || r.Type >= codec.Sentinel || r.Type == codec.ReqTooLarge || r.Type == codec.ReqWrongArgumentsNumber || r.Type == codec.ReqPing || r.Type == codec.ReqQuit
 
+// crok: what OnCReact relies on besides r and c being non-nil (assumed by eventloop.cread at the call: the request
+// comes fresh from the pool and the decoder, the client's queue and the topology tables are global structures)
+//@ define crok(h, r, c) = ref(listenServer, h).Options != nil && cq(c) != nil && cqwf(c) && (forall i int :: 0 <= i && i < cq(c).count ==> cqn(c, i) != r)
+//@     && (forall k int32 :: has(r.Body, k) ==> (r.Body[k] != nil && 0 <= k && k < 16384))
+//@     && (forall s int32 :: (0 <= s && s < 16384 && rs(s) != nil) ==> (rs(s).Master != nil && (forall j int :: 0 <= j && j < len(rs(s).Slaves) ==> rs(s).Slaves[j] != nil)))
+//@     && (forall a string :: has(core.EngineGlobal.ProxyPool, a) ==> core.EngineGlobal.ProxyPool[a] != nil)
+
 //@ func listenServer.OnCReact
 //@   props C01 C03 C04 C12 C17
 //@   unreachable return 1
